@@ -128,6 +128,17 @@ def vector_only(g: gen.Gen, r):
         if k == 10:
             return r.choice([4, -1]) + arr(w.size) @ w
         return (arr(w.size) @ w) * 2 + x[i]
+    if n >= 3 and r.random() < 0.25:
+        # the objective lives on ONE view, every constraint on ANOTHER view of the same vector whose printed name is the same
+        # (a slice's name has no step): nothing else is mentioned, so the single-vector shortcuts of Problem.variables are eligible
+        pairs = [(x[0:n:2], x[0:n]), (x[0:n], x[0:n:2]), (x[::-1], x[0:n:2]), (x[0:n:2], x[::-1])]
+        if n >= 4:
+            pairs += [(x[0:n:3], x[0:n:2]), (x[0:n:2], x[0:n:3])]
+        va, vb = r.choice(pairs)
+        red = lambda w: r.choice([lambda: arr(w.size) @ w, lambda: w.sum(), lambda: w @ arr(w.size) + 1.5, lambda: 3 - w.sum()])()
+        obj = red(va)
+        cons = [r.choice([lambda e: e <= 4, lambda e: e >= -3, lambda e: e.eq(1.0)])(red(vb)) for _ in range(r.randint(1, 2))]
+        return obj, cons
     obj = form()
     cons = []
     for _ in range(r.randint(1, 4)):
